@@ -58,9 +58,11 @@ def gen_case(rng, thorough):
             versions.append(dict(f))
             if rng.random() < 0.1:
                 f = {"id": rng.choice(FIDS), "!" + rng.choice(["p", "q"]): gen.scalar(rng)}   # property fact
+            elif rng.random() < 0.06:
+                f["deleteWith"] = [rng.choice(FIDS + ["ghost"])]       # dies with another id, stored or not
             ops.append({"op": "addFact", "id": rng.choice(FIDS + ["", ""]), "fact": f})
         elif r < 0.47:
-            ops.append({"op": "remFact", "id": rng.choice(FIDS + ["!f1.p"])})
+            ops.append({"op": "remFact", "id": rng.choice(FIDS + ["!f1.p", "ghost"])})
         elif r < 0.60:
             ops.append({"op": "getFact", "id": rng.choice(FIDS + ["!f1.p", "!f2.q", "nope"])})
         elif r < 0.97:
@@ -70,8 +72,16 @@ def gen_case(rng, thorough):
                                  allow_propvar=rng.random() < 0.05, drop_prob=rng.choice([0.2, 0.5, 0.8]))
             if rng.random() < 0.05: p = {}
             ops.append({"op": "search", "pattern": p, "inherited": False})
-        else:
+        elif r < 0.985:
             ops.append({"op": "size"})
+        elif r < 0.993:
+            ops.append({"op": "reload"})          # the location is rebuilt from its stored documents: every answer stays the same
+        else:
+            # a pattern the matcher rejects once it meets an array (two variables in one array): the error is an answer like any other,
+            # and the location keeps serving afterwards
+            arr_keys = [k for b in base for k, v in b.items() if isinstance(v, list)] or gen.KEYS
+            ops.append({"op": "search", "pattern": {rng.choice(arr_keys): ["?x", "?y"]}, "inherited": False})
+            ops.append({"op": "addFact", "id": rng.choice(FIDS), "fact": dict(rng.choice(base))})
     if rng.random() < 0.15:
         # directed: a value overwritten by one that drops some of its terms, then removed (or replaced again), then searched for by the
         # dropped terms alone: whatever the term index still holds for that id, the answer is the matching STORED facts
